@@ -45,8 +45,12 @@ GSpec == GInit /\ [][GNext]_gvars
 \* key class ClassSeq[c], with the deviations DSeq[j] switched on (j = 1: the ideal, j = 4: as built)
 ClassSeq == <<[inl |-> TRUE, lax |-> FALSE], [inl |-> FALSE, lax |-> FALSE], [inl |-> FALSE, lax |-> TRUE]>>
 DSeq == <<{}, {DevStray}, {DevTrail}, AllDevs>>
-Exp == [n \in Keys |-> [c \in 1..3 |-> [j \in 1..4 |->
-          <<Verdict(r, n, "key", ClassSeq[c], DSeq[j]), Verdict(r, n, "name", ClassSeq[c], DSeq[j]),
-            Verdict(r, n, "book", ClassSeq[c], DSeq[j])>>]]]
+V3(n, cls, DD) == LET co == Core(r, n, cls, DD) IN      \* = <<Verdict "key", Verdict "name", Verdict "book">>
+                  <<co, KeyAvail(r, n, "name", cls) /\ co, KeyAvail(r, n, "book", cls) /\ co>>
+Exp == [n \in Keys |-> [c \in 1..3 |-> [j \in 1..4 |-> V3(n, ClassSeq[c], DSeq[j])]]]
+\* V3 is Verdict spelled out once per API (checked by TLC on every printed state)
+ExpIsVerdict == \A n \in Keys : \A c \in 1..3 : \A j \in 1..4 :
+                  Exp[n][c][j] = <<Verdict(r, n, "key", ClassSeq[c], DSeq[j]), Verdict(r, n, "name", ClassSeq[c], DSeq[j]),
+                                   Verdict(r, n, "book", ClassSeq[c], DSeq[j])>>
 Emit == PrintT(<<"BEHAVIOUR", ToJson([attr |-> attr, steps |-> hist, r |-> r, exp |-> Exp, acc |-> Acc(r)])>>)
 =============================================================================
